@@ -18,12 +18,15 @@ fn case_variant(sfx: &str, v: usize) -> String {
 /// Sentence templates; `{}` is where "<n><sfx>" goes.
 // the last eight put other number-like things before the ordinal (what one condensing pass does to them must not
 // disturb the next one): a spaced ordinal, a correct ordinal, a decimal, a number ending a sentence, a decade ...
-const TEMPLATES: [&str; 16] = [
+// ... and the last eight put things BEHIND it: a bare number, a unit, another ordinal, a number after a line break
+const TEMPLATES: [&str; 24] = [
     "The {} item.", "{}", "{} place went to her.", "She came in {}.", "On the {}, we left.",
     "Is it the {}?", "(the {} time)", "Ünïcödé 😀 prefix, then the {} one.",
     "The 2 nd entry and then the {} item.", "Pick the 4 th column, the 1st row and the {}", "First the 3rd, then the {} one.",
     "It costs 3.50 on the {} day.", "I have 4. The {} is mine.", "In the 1980s the {} one won.", "No. 5 and 1,000 more: the {}!",
     "The 1 st, 2 nd and 3 rd came before the {} did.",
+    "The {} 5 items.", "She came {} 2 times.", "Row {} 13", "He weighed {} 7lb then.", "The {} 1st attempt.", "On the {}\n12 came.", "From the {} 100 were left.",
+    "The {} 3.5 per cent.",
 ];
 
 fn one(digits: &str, sfx: &str, variant: usize, tpl: usize, markdown: bool) -> Value {
